@@ -166,15 +166,18 @@ def read_ndjson(path):
     return out
 
 
-_BAD = re.compile(r'<<"BADLINE",\s*(\d+),\s*<<([^<>]*)>>\s*>>')
+_BAD = re.compile(r'<<\s*"BADLINE",\s*(\d+),\s*<<\s*([^<>]*?)\s*>>\s*>>')
 
 
 def _validate_one(args):
     d, module, cfg, nlines, heap_mb, timeout = args
     r = run_tlc(d, module, cfg, workers=1, heap_mb=heap_mb, timeout=timeout)
     bad = []
-    for m in _BAD.finditer(r["out"].replace("\n", " ")):
-        bad.append((int(m.group(1)), (m.group(2) or "").strip()))
+    flat = r["out"].replace("\n", " ")
+    for m in _BAD.finditer(flat):
+        bad.append((int(m.group(1)), re.sub(r"\s+", " ", (m.group(2) or "").strip())))
+    if len(bad) != flat.count('"BADLINE"'):
+        raise Infra("trace validator %s/%s: %d BADLINE reports printed but %d parsed" % (module, cfg, flat.count('"BADLINE"'), len(bad)))
     if r["error"] or r["violated"]:
         raise Infra("trace validator %s/%s failed: %s %s\n%s" % (module, cfg, r["error"], r["violated"], r["out"][-3000:]))
     if r["distinct"] != nlines + 1:
